@@ -131,7 +131,7 @@ impl<'a> Layer<'a> {
         assert!(frame_id < self.file.num_frames());
         let cel_id = CelId {
             frame: frame_id as u16,
-            layer: self.layer_id as u16,
+            layer: self.layer_id,
         };
         Cel {
             file: self.file,
